@@ -38,3 +38,41 @@ def table(expr, classify, names):
         env = dict(zip(names, vals))
         rows[vals] = evaluate(expr, classify, env)
     return rows
+
+
+def _terminates(stmts):
+    return bool(stmts) and isinstance(stmts[-1], (ast.Continue, ast.Return, ast.Raise, ast.Break))
+
+
+def reach_condition(stmts, is_target):
+    """Path condition (an ast expression, or True) under which straight-line execution of `stmts`
+    (if/else, early continue/return/raise) reaches the first statement satisfying is_target.
+    Returns None when no such statement exists.  Loops/try around the target are not entered."""
+    def conj(a, b):
+        if a is True:
+            return b
+        if b is True:
+            return a
+        return ast.BoolOp(op=ast.And(), values=[a, b])
+
+    def neg(a):
+        return ast.UnaryOp(op=ast.Not(), operand=a)
+
+    reach = True
+    for s in stmts:
+        if is_target(s):
+            return reach
+        if isinstance(s, ast.If):
+            inner = reach_condition(s.body, is_target)
+            if inner is not None:
+                return conj(reach, conj(s.test, inner))
+            inner = reach_condition(s.orelse, is_target)
+            if inner is not None:
+                return conj(reach, conj(neg(s.test), inner))
+            if _terminates(s.body) and not _terminates(s.orelse):
+                reach = conj(reach, neg(s.test))
+            elif _terminates(s.orelse) and not _terminates(s.body):
+                reach = conj(reach, s.test)
+            elif _terminates(s.body) and _terminates(s.orelse):
+                return None
+    return None
